@@ -57,7 +57,7 @@ def main(argv=None):
     for i in range(min(3, n_runs)):
         s = R.run_seed(master, pid, i)
         if s in agg["digests"]:
-            rec = runner.run_scenario(prop, prop.generate(s, tier))
+            rec = runner.run_scenario(prop, runner.gen(prop, s, tier))
             redo += 1
             if rec["digest"] != agg["digests"][s]:
                 print(f"HARNESS-ERROR property={pid} nondeterministic seed={s} worker={agg['digests'][s][:12]} parent={rec['digest'][:12]}")
@@ -84,9 +84,9 @@ def main(argv=None):
     os.makedirs(runner.REPLAY_DIR, exist_ok=True)
     for key, items in sorted(unknown.items())[:4]:
         seed, v = items[0]
-        sc = prop.generate(seed, tier)
+        sc = runner.gen(prop, seed, tier)
         small = shrink.minimise(prop, sc, key)
-        bootstrap.reset_process_state()
+        bootstrap.reset_process_state(small)
         sim = prop.execute(small)
         vv = [x for x in sim.violations if (x["oracle"], x["site"]) == key]
         small["expect"] = {"oracle": key[0], "site": key[1], "digest": sim.log_digest(), "detail": vv[0]["detail"] if vv else None}
